@@ -129,7 +129,7 @@ def has_escape(stmts, raising=()):
 
 class FuncTr:
     def __init__(self, gen, fn, coqname, params=None, ptypes=None, returns=None, extra_params=None,
-                 raises=False, abstract=None, ignore=None, fuel=None):
+                 raises=False, abstract=None, ignore=None, fuel=None, no_abstract_params=False):
         self.gen = gen
         self.fn = fn
         self.coqname = coqname
@@ -139,6 +139,7 @@ class FuncTr:
         self.abstract = abstract or {}       # python call name -> coq parameter name (oracle)
         self.ignore = set(ignore or [])      # names that only carry text (field descriptors): dropped
         self.fuel = fuel                     # python expression (text) bounding the iterations of `while` loops
+        self.no_abstract_params = no_abstract_params   # abstract functions are Section variables, not parameters
         args = [a.arg for a in fn.args.args if a.arg not in ("self", "cls")]
         self.params = [cname(a) for a in args]
         self.selfattrs = []                  # discovered self.x reads
@@ -776,7 +777,7 @@ class FuncTr:
             if ty.startswith("enum:"):
                 ty = ty[5:]
             ps.append(f"({p} : {ty})")
-        for k, v in self.abstract.items():
+        for k, v in ({} if self.no_abstract_params else self.abstract).items():
             ps.append(f"({v.split()[0]} : {self.ptypes.get(v, 'Q -> Q')})")
         return f"Definition {self.coqname} {' '.join(ps)} :=\n{body}."
 
@@ -894,7 +895,7 @@ class Gen:
         self.notes += tr.notes
         return tr
 
-    def assign_expr(self, fname, qual, target, coqname, params, ptypes=None, index=None, attrs=None):
+    def assign_expr(self, fname, qual, target, coqname, params, ptypes=None, index=None, attrs=None, abstract=None):
         """the right-hand side of the unique assignment `target = ...` inside function `qual`"""
         node = self.find(fname, qual)
         hits = []
@@ -918,7 +919,7 @@ class Gen:
         fake = ast.FunctionDef(name=coqname, args=ast.arguments(posonlyargs=[], args=[ast.arg(arg=p) for p in params],
                                                                  kwonlyargs=[], kw_defaults=[], defaults=[]),
                                body=[ast.Return(value=hits[0].value)], decorator_list=[])
-        tr = FuncTr(self, fake, coqname, ptypes=ptypes)
+        tr = FuncTr(self, fake, coqname, ptypes=ptypes, abstract=abstract, no_abstract_params=bool(abstract))
         tr.declared_extra_strict = attrs or []
         text = tr.translate()
         self.out.append(f"(* {fname}:{hits[0].lineno} {qual}: {target} = ... *)\n{text}")
@@ -1076,6 +1077,25 @@ def build_spec(g):
     g.func("domains.py", "bi_rectangle_zoned_nested", rettype="list (list (list (Q * Q)))", ignore=ign, raises=True)
     g.assign_expr("design.py", "DesignNearSquare.__init__", "n", "near_square_n", [],
                   attrs=["self.geometric_constraints.length", "self.geometric_constraints.b"])
+    # ---- equivalent single U-tube (borehole_heat_exchangers.py) ----
+    B = "borehole_heat_exchangers.py"
+    ab = {"log": "ln_", "sqrt": "sqrt_"}
+    g.raw("Section EquivPipe.\nVariables (pi TWO_PI : Q) (ln_ sqrt_ : Q -> Q).")
+    g.consts["pi"] = "pi"; g.const_types["pi"] = "Q"; g.consts["TWO_PI"] = "TWO_PI"; g.const_types["TWO_PI"] = "Q"
+    g.func(B, "MultipleUTube.u_tube_volumes", coqname="u_tube_volumes", rettype="tuple", abstract=ab, no_abstract_params=True,
+           extra_strict=["self.nPipes", "self.r_in", "self.h_f", "self.r_out", "self.pipe.k"])
+    g.func(B, "CoaxialPipe.concentric_tube_volumes", coqname="concentric_tube_volumes", rettype="tuple", abstract=ab, no_abstract_params=True,
+           ptypes={"self_r_inner": "Q * Q", "self_r_outer": "Q * Q", "self_pipe_k": "list Q"},
+           extra_strict=["self.r_inner", "self.r_outer", "self.h_f_a_in", "self.pipe.k"])
+    EQ = "GHEDesignerBoreholeWithMultiplePipes.equivalent_single_u_tube"
+    g.assign_expr(B, EQ, "n", "eq_n", [])
+    g.assign_expr(B, EQ, "r_p_i_prime", "eq_r_in", ["vol_fluid", "n"], abstract=ab)
+    g.assign_expr(B, EQ, "r_p_o_prime", "eq_r_out", ["vol_fluid", "vol_pipe", "n"], abstract=ab)
+    g.assign_expr(B, EQ, "k_p_prime", "eq_k_pipe", ["r_p_o_prime", "r_p_i_prime", "n", "resist_pipe"], abstract=ab)
+    g.assign_expr(B, "GHEDesignerBoreholeWithMultiplePipes.match_effective_borehole_resistance", "kg_lower", "kg_lower", [])
+    g.assign_expr(B, "GHEDesignerBoreholeWithMultiplePipes.match_effective_borehole_resistance", "kg_upper", "kg_upper", [])
+    g.raw("End EquivPipe.")
+    del g.consts["pi"], g.consts["TWO_PI"]
     # ---- combined g-function (ground_heat_exchangers.py, gfunction.py) ----
     lq2 = "list Q"
     g.func("ground_heat_exchangers.py", "BaseGHE.combine_sts_lts", coqname="combine_sts_lts", rettype="tuple", raises=True,
